@@ -48,6 +48,21 @@ def small_regexes(rng, n):
     return out[:n] if n < len(out) else out
 
 
+def has_empty_class(tree):
+    if tree is None:
+        return False
+    t = tree[0]
+    if t == "set":
+        return rx.to_sem(tree) == rx.EMPTY
+    if t == "grp":
+        return has_empty_class(tree[1])
+    if t in ("alt", "seq"):
+        return any(has_empty_class(x) for x in tree[1])
+    if t in ("op", "rep"):
+        return has_empty_class(tree[1])
+    return False
+
+
 def to_binary_ok(tree):
     """can this tree be printed as a binary regex (no classes)"""
     t = tree[0]
@@ -91,7 +106,14 @@ def run(ctx: Ctx):
         todo.append((tree, binary, sem))
     ctx.count("regexes_generated", len(todo))
 
-    lang.check_languages(ctx, [(rx.src(t, b), sem, None) for t, b, sem in todo], rng, "c07", strings_budget=strings_budget, sweep_states=sweep_states, per_batch=per_batch)
+    trees = {rx.src(t, b): t for t, b, sem in todo}
+
+    def classify(what, regex_src):
+        # an unsatisfiable character class leaves a dead, non-accepting state in the matcher: the mismatch is reported one byte late
+        if has_empty_class(trees.get(regex_src)) and what in ("no-fail-when-dead", "byte-class:accepts-extra-byte"):
+            return "late-mismatch:empty-character-class"
+        return None
+    lang.check_languages(ctx, [(rx.src(t, b), sem, None) for t, b, sem in todo], rng, "c07", strings_budget=strings_budget, sweep_states=sweep_states, per_batch=per_batch, classify=classify)
     ctx.floor("prefix_observations", 20000 if quick else 300000)
     ctx.floor("sweeps", 300)
     ctx.rule = ("case = (regex, string of class representatives) observed at every prefix through end() on a state copy, or (regex, derivative "
